@@ -668,6 +668,13 @@ func parseCall(expr string, n *promParser.Call) (src []Source) {
 				es.Operation = n.Func.Name
 				es.Call = n
 				es.Position = e.PositionRange()
+				switch n.Func.Name {
+				case "label_replace", "label_join", "sort", "sort_desc":
+					// Values are passed through.
+				default:
+					// The function is applied to the value, it's no longer the number its argument returns.
+					es.KnownReturn = false
+				}
 				src = append(src, parsePromQLFunc(es, expr, n))
 			}
 		case promParser.ValueTypeNone, promParser.ValueTypeScalar, promParser.ValueTypeString:
